@@ -373,6 +373,9 @@ func scenarioC14(c *Ctx) {
 		if c.Quick() && (p.reinit || strings.Contains(p.name, "round B") || strings.Contains(p.name, "reinit message")) {
 			sw = 1 // quick: one pre-emption (the pre-empting side runs to its end) for the pairs added last
 		}
+		if !c.Quick() && strings.Contains(p.name, "reinit message") {
+			sw = 2 // the reinit handler issues some forty store calls: three pre-emptions are tens of thousands of runs
+		}
 		for _, sc := range boundedSchedules(na, nb, sw) {
 			snap, tr := execute(sc, 0)
 			explored++
